@@ -303,7 +303,18 @@ def run_one(ctx, wl, idx):
         raise
     except Exception as e:
         tb = traceback.format_exc()
-        if _tb_in_library(e.__traceback__):
+        from .refimpl import FormatError
+
+        if isinstance(e, FormatError):
+            # an independent parser could not make sense of bytes the library exported
+            msg = f"exported data is not a well-formed export: {e}"
+            path = write_replay(ctx, case, msg, {"traceback": tb[-2000:]})
+            ctx.violations.append({"message": msg, "replay": path, "workload": wl.name, "index": idx})
+            print(f"VIOLATION property={ctx.pid} replay={path}", flush=True)
+            print(f"  what: {msg[:600]}", flush=True)
+            if len(ctx.violations) >= ctx.max_violations:
+                raise StopRun()
+        elif _tb_in_library(e.__traceback__):
             msg = f"undocumented exception {type(e).__name__}: {e} escaped a library call"
             path = write_replay(ctx, case, msg, {"traceback": tb[-3000:]})
             ctx.violations.append({"message": msg, "replay": path, "workload": wl.name, "index": idx})
